@@ -93,6 +93,11 @@ type FConn struct {
 	ReadCalls  int
 	BytesRead  int64
 	WriteCalls int
+	Fired      map[FaultOp]int // scripted faults consumed, by kind
+	MaxRead    int             // largest number of bytes delivered by a single Read
+	ReadLog    []int           // bytes delivered per Read call (when LogReads is set)
+	LogReads   bool
+	CutMid     bool // a scripted cut fired in the middle of a write
 }
 
 type PipeOpts struct {
@@ -148,6 +153,12 @@ func (c *FConn) nextFault(read bool) (Fault, int) {
 			f = c.writeFaults[0]
 			c.writeFaults = c.writeFaults[1:]
 		}
+	}
+	if f.Op != "" && f.Op != FPass {
+		if c.Fired == nil {
+			c.Fired = map[FaultOp]int{}
+		}
+		c.Fired[f.Op]++
 	}
 	return f, c.chunkAll
 }
@@ -212,6 +223,12 @@ func (c *FConn) Read(b []byte) (int, error) {
 			h.cond.Broadcast()
 			c.smu.Lock()
 			c.BytesRead += int64(n)
+			if n > c.MaxRead {
+				c.MaxRead = n
+			}
+			if c.LogReads {
+				c.ReadLog = append(c.ReadLog, n)
+			}
 			c.smu.Unlock()
 			return n, nil
 		}
@@ -256,17 +273,26 @@ func (c *FConn) Write(b []byte) (int, error) {
 		if h.rclosed || h.wclosed {
 			return written, &net.OpError{Op: "write", Net: "fconn", Err: errors.New("broken pipe")}
 		}
+		if written == len(b) {
+			if after == FCut && budget >= 0 && written >= budget {
+				// the whole buffer was accepted before the connection broke: the write itself succeeds
+				h.mu.Unlock()
+				c.Cut()
+				h.mu.Lock()
+			}
+			return written, nil
+		}
 		if budget == 0 || (budget > 0 && written >= budget) {
 			if after == FCut {
+				c.smu.Lock()
+				c.CutMid = true
+				c.smu.Unlock()
 				h.mu.Unlock()
 				c.Cut()
 				h.mu.Lock()
 				return written, errReset
 			}
 			return written, timeoutErr("write")
-		}
-		if written == len(b) {
-			return written, nil
 		}
 		space := h.capacity - len(h.buf)
 		if space > 0 {
